@@ -777,3 +777,12 @@ func headKind(n *Node) NodeKind {
 		}
 	}
 }
+
+// EvalNode evaluates an AST directly (used by the generators to steer).
+func EvalNode(n *Node, cur, root V, env *Env) (V, *Fault) {
+	ev := &evaluator{root: root}
+	return ev.eval(n, cur, env)
+}
+
+// NewEnv extends an environment.
+func NewEnv(parent *Env, vars map[string]V) *Env { return &Env{parent: parent, vars: vars} }
